@@ -524,7 +524,7 @@ func runC08(w *World, r *Report) {
 	}
 
 	// ---- merge-end
-	r.Rule("C08.merge-end", "merged reader: EOF only when no source is left; a source is dropped only when closed; Close closes all; static/reflect select boundary consistent", 4)
+	r.Rule("C08.merge-end", "merged reader: EOF only when no source is left; a source is dropped only when closed; Close closes all; static/reflect select boundary consistent; array-backed copies inherit the position", 5)
 	{
 		mr := w.Fn("schema", "multiStreamReader.recv")
 		fChosen := w.Field("schema", "multiStreamReader", "chosenList")
@@ -578,41 +578,8 @@ func runC08(w *World, r *Report) {
 		})
 		r.Check(good, "C08.merge-end", "merged recv drops a source only when it is closed", mr.Pos(), "ok arms return the item; only !ok reaches the removal", "a source that delivered an item is removed from the merge")
 		mergedCloseAll(w, r, "C08.merge-end")
-		// static select (receiveN, up to maxSelectNum sources) vs reflect.Select: the constructor builds the
-		// reflect cases under exactly the condition under which recv uses them
-		nmr := w.Fn("schema", "newMultiStreamReader")
-		cmpOf := func(fn *ssa.Function, isList func(ssa.Value) bool) (token.Token, int64, bool) {
-			var op token.Token
-			var c int64
-			found := false
-			instrs(fn, func(in ssa.Instruction) {
-				iff, ok := in.(*ssa.If)
-				if !ok {
-					return
-				}
-				o, x, y, ok := asCmp(iff.Cond)
-				if !ok || !isLenOf(x, isList) {
-					return
-				}
-				if v, ok := constInt(y); ok && v > 1 {
-					op, c, found = o, v, true
-				}
-			})
-			return op, c, found
-		}
-		op1, c1, ok1 := cmpOf(nmr, func(v ssa.Value) bool { _, isP := v.(*ssa.Parameter); return isP })
-		op2, c2, ok2 := cmpOf(mr, func(v ssa.Value) bool { return isLoadOfField(v, fChosen) })
-		// receiveN's dispatch table covers 0..c
-		tableLen := int64(-1)
-		instrs(w.Fn("schema", "receiveN"), func(in ssa.Instruction) {
-			if al, ok := in.(*ssa.Alloc); ok {
-				if arr, ok := deref(al.Type()).Underlying().(*types.Array); ok {
-					tableLen = arr.Len()
-				}
-			}
-		})
-		r.Check(ok1 && ok2 && op1 == op2 && c1 == c2 && tableLen == c1+1, "C08.merge-end", "merged recv: static/reflect select boundary agrees with the constructor and the receiveN table", mr.Pos(),
-			fmt.Sprintf("both use len %s %d; receiveN has %d entries", op1, c1, tableLen), fmt.Sprintf("constructor builds reflect cases under len %s %d, recv uses them under len %s %d, receiveN table has %d entries: for a merge of exactly %d sources recv selects over cases that were never built (blocks forever) or indexes past the table", op1, c1, op2, c2, tableLen, c1))
+		mergeDispatchCheck(w, r, "C08.merge-end")
+		arrayCopyCheck(w, r, "C08.merge-end")
 	}
 }
 
@@ -761,5 +728,84 @@ func runC19(w *World, r *Report) {
 			good = sameN && idxOK
 		}
 		r.Check(good, "C19.copies-all-used", "copyItem hands out all n copies", ci.Pos(), "copy(n), ret sized n, ret[i] = copies[i]", "a created stream copy is dropped without being closed (the source can never be fully closed)")
+	}
+}
+
+// mergeDispatchCheck: static select (receiveN, up to maxSelectNum sources) vs reflect.Select boundary.
+func mergeDispatchCheck(w *World, r *Report, rule string) {
+	mr := w.Fn("schema", "multiStreamReader.recv")
+	fChosen := w.Field("schema", "multiStreamReader", "chosenList")
+	// static select (receiveN, up to maxSelectNum sources) vs reflect.Select: the constructor builds the
+		// reflect cases under exactly the condition under which recv uses them
+		nmr := w.Fn("schema", "newMultiStreamReader")
+		cmpOf := func(fn *ssa.Function, isList func(ssa.Value) bool) (token.Token, int64, bool) {
+			var op token.Token
+			var c int64
+			found := false
+			instrs(fn, func(in ssa.Instruction) {
+				iff, ok := in.(*ssa.If)
+				if !ok {
+					return
+				}
+				o, x, y, ok := asCmp(iff.Cond)
+				if !ok || !isLenOf(x, isList) {
+					return
+				}
+				if v, ok := constInt(y); ok && v > 1 {
+					op, c, found = o, v, true
+				}
+			})
+			return op, c, found
+		}
+		op1, c1, ok1 := cmpOf(nmr, func(v ssa.Value) bool { _, isP := v.(*ssa.Parameter); return isP })
+		op2, c2, ok2 := cmpOf(mr, func(v ssa.Value) bool { return isLoadOfField(v, fChosen) })
+		// receiveN's dispatch table covers 0..c
+		tableLen := int64(-1)
+		instrs(w.Fn("schema", "receiveN"), func(in ssa.Instruction) {
+			if al, ok := in.(*ssa.Alloc); ok {
+				if arr, ok := deref(al.Type()).Underlying().(*types.Array); ok {
+					tableLen = arr.Len()
+				}
+			}
+		})
+		r.Check(ok1 && ok2 && op1 == op2 && c1 == c2 && tableLen == c1+1, rule, "merged recv: static/reflect select boundary agrees with the constructor and the receiveN table", mr.Pos(),
+			fmt.Sprintf("both use len %s %d; receiveN has %d entries", op1, c1, tableLen), fmt.Sprintf("constructor builds reflect cases under len %s %d, recv uses them under len %s %d, receiveN table has %d entries: for a merge of exactly %d sources recv selects over cases that were never built (blocks forever) or indexes past the table", op1, c1, op2, c2, tableLen, c1))
+}
+
+// arrayCopyCheck: copies of an array-backed reader continue at the parent's position (every field copied).
+func arrayCopyCheck(w *World, r *Report, rule string) {
+	cp := w.Fn("schema", "arrayReader.copy")
+	arT := w.Named("schema", "arrayReader")
+	st := arT.Underlying().(*types.Struct)
+	recv := cp.Params[0]
+	n := 0
+	instrs(cp, func(in ssa.Instruction) {
+		al, ok := in.(*ssa.Alloc)
+		if !ok || namedOf(al.Type()) != arT {
+			return
+		}
+		n++
+		set := map[string]bool{}
+		for _, ref := range *al.Referrers() {
+			if fa, ok := ref.(*ssa.FieldAddr); ok {
+				for _, rr := range *fa.Referrers() {
+					if s2, ok := rr.(*ssa.Store); ok {
+						if f, base := loadedField(s2.Val); f != nil && base == ssa.Value(recv) && sameField(f, fieldVarOfAddr(fa)) {
+							set[f.Name()] = true
+						}
+					}
+				}
+			}
+		}
+		var missing []string
+		for i := 0; i < st.NumFields(); i++ {
+			if !set[st.Field(i).Name()] {
+				missing = append(missing, st.Field(i).Name())
+			}
+		}
+		r.Check(len(missing) == 0, rule, "arrayReader.copy copies every field of the parent", al.Pos(), "arr and index taken from the receiver", "a copy of an array-backed reader does not inherit "+strings.Join(missing, ", ")+": a partially consumed reader restarts at element 0 on every fan-out copy")
+	})
+	if n == 0 {
+		r.Fail(rule, "arrayReader.copy copies every field of the parent", cp.Pos(), "no arrayReader literal in copy")
 	}
 }
